@@ -1,7 +1,7 @@
 SPECIFICATION Spec
 CONSTANTS
-  Sizes <- SizesSmall
-  NB = 4
+  SizesC <- SizesSmall
+  NBC = 4
   Times = {1, 2, 5, 17, 21, 61}
   MaxOps = 4
   Repaired = TRUE
